@@ -891,7 +891,7 @@ func init() {
 				}
 			}
 			fr.oblig(!keeps)
-			nl := ruleNarrowLen(c, inFiles("dawg.go"))
+			nl := ruleNarrowLen(c, filesOf(c, "(*dawg.Dawg).GobEncode", "(*dawg.Dawg).GobDecode", "dawg.encodeUint64", "dawg.decodeUint64"))
 			return []*RuleResult{g, v, ow, fr, nl}
 		},
 		controls: func(ctl *Ctx) []*RuleResult {
